@@ -1483,10 +1483,11 @@ func (c *vchCtx) doSide(p int, kind string) string {
 			if err := st.ApplyChanStatus(bit); err != nil {
 				return err
 			}
-			// ClearChannelStatus' closure is NOT retry-safe (finding
-			// C02-F-retry: it assigns to its captured `status` parameter).
+			// ClearChannelStatus' closure was not retry-safe (finding
+			// C02-F3, fixed in /repo 7a71987: it assigned to its captured
+			// `status` parameter).  Diagnostic knob only:
 			// VERIF_CHAN_RETRY_STATUS=0 suspends the forced retries for
-			// this one call so that the rest can be judged.
+			// this one call; the default keeps them.
 			if d := c.db[p]; d != nil && d.retry &&
 				vEnvInt("VERIF_CHAN_RETRY_STATUS", 1) == 0 {
 
